@@ -264,6 +264,7 @@ func init() {
 			return c
 		}
 		v5mask := r.Intn(4)
+		c.P31 = r.Chance(35)
 		genPopulation(r, c, v5mask, i%3 == 2, i%5 == 4)
 		c.Ops = append(c.Ops, sessOp{Op: "stop"})
 		if i%5 == 4 && r.Chance(50) {
